@@ -43,7 +43,7 @@ class AnalysisContext:
     def results(self) -> "AnalysisResults":
         return AnalysisResults(pickled=self.pickled, results=self.previous_results)
 
-    def shorten_code(self, ast_node) -> Tuple[str, bool]:
+    def shorten_code(self, ast_node, register: bool = True) -> Tuple[str, bool]:
         code = unparse(ast_node).strip()
         if len(code) > 32:
             cutoff = code.find("(")
@@ -54,7 +54,8 @@ class AnalysisContext:
         else:
             shortened_code = code
         was_already_reported = shortened_code in self.reported_shortened_code
-        self.reported_shortened_code.add(shortened_code)
+        if register:
+            self.reported_shortened_code.add(shortened_code)
         return shortened_code, was_already_reported
 
 
@@ -285,8 +286,11 @@ class BadCalls(Analysis):
 
     def analyze(self, context: AnalysisContext) -> Iterator[AnalysisResult]:
         for node in context.pickled.properties.calls:
-            shortened, already_reported = context.shorten_code(node)
+            # only mark the code as reported if we do report it: OvertlyBadEvals runs next and
+            # must still see every other call as not yet reported
+            shortened, already_reported = context.shorten_code(node, register=False)
             if any(shortened.startswith(f"{c}(") for c in self.BAD_CALLS):
+                context.reported_shortened_code.add(shortened)
                 yield AnalysisResult(
                     Severity.OVERTLY_MALICIOUS,
                     f"Call to `{shortened}` is almost certainly evidence of a "
